@@ -451,6 +451,8 @@ func main() {
 			w.Flush()
 			fails += runFuzz19(w, *first+i, *seed*1000003+int64(*first+i))
 			w.Flush()
+			fails += runArgs19(w, *first+i, rand.New(rand.NewSource(*seed*7000003+int64(*first+i))))
+			w.Flush()
 		}
 		w.Flush()
 		return
